@@ -111,3 +111,38 @@ M("c10-score-by-position", "C10", "score matrix indexed by position of track in 
 M("c10-cost-sign", "C10", "cost sign lost", TR, "        cost_matrix = -scores\n", "        cost_matrix = scores.copy()\n")
 M("c10-wrong-track-features", "C10", "fixed window features taken from first instance of frame", FW, "                track_idx = t.track_ids.index(track_id)\n", "                track_idx = t.track_ids.index(track_id) if len(self.tracker_queue) < 2 else 0\n")
 M("c10-id-reuse", "C10", "local queues: track ids reused modulo 3", LQ, "            new_track_id = max(self.current_tracks) + 1\n", "            new_track_id = (max(self.current_tracks) + 1) if len(self.current_tracks) < 3 else 2\n")
+
+PR = "sleap_nn/data/providers.py"
+PD = "sleap_nn/inference/predictors.py"
+VR_FINALLY = """        except Exception as e:
+            logger.error(f"Error when reading video frame. Stopping video reader.\\n{e}")
+
+        finally:
+            self.frame_buffer.put(
+                {
+                    "image": None,
+                    "frame_idx": None,
+                    "video_idx": None,
+                    "orig_size": None,
+                }
+            )
+"""
+M("c13-marker-only-on-success", "C13", "VideoReader: marker only on success (finally -> else)", PR, VR_FINALLY, VR_FINALLY.replace("        finally:\n", "        else:\n"))
+M("c13-marker-twice-on-error", "C13", "VideoReader: marker also put in except", PR, VR_FINALLY,
+  VR_FINALLY.replace('Stopping video reader.\\n{e}")\n', 'Stopping video reader.\\n{e}")\n            self.frame_buffer.put({"image": None, "frame_idx": None, "video_idx": None, "orig_size": None})\n'))
+M("c13-range-end-plus-1", "C13", "VideoReader: range(start, end+1) clipped to video length", PR,
+  "            for idx in range(self.start_idx, self.end_idx):\n                img = self.video[idx]",
+  "            for idx in range(self.start_idx, min(self.end_idx + 1, self.video.shape[0])):\n                img = self.video[idx]")
+M("c13-consumer-drops-partial", "C13", "consumer drops the partial last batch", PD,
+  "            if imgs:\n                # TODO: all preprocessing should be moved into InferenceModels to be exportable.",
+  "            if imgs and (len(imgs) == batch_size or not done):\n                # TODO: all preprocessing should be moved into InferenceModels to be exportable.")
+M("c13-fidx-before-sentinel", "C13", "consumer: frame_idx list misaligned (appended from previous frame)", PD,
+  "                fidxs.append(frame[\"frame_idx\"])\n", "                fidxs.append(frame[\"frame_idx\"] if len(fidxs) != 2 else fidxs[-1])\n")
+M("c13-labels-skip-when-full", "C13", "LabelsReader drops a frame when the queue is full (put_nowait)", PR,
+  "                self.frame_buffer.put(sample)\n", "                try:\n                    self.frame_buffer.put_nowait(sample)\n                except Exception:\n                    pass\n")
+M("c13-video-idx-start", "C13", "VideoReader reports idx relative to start", PR,
+  "\"frame_idx\": torch.tensor(idx, dtype=torch.int32),\n                        \"video_idx\": torch.tensor(0",
+  "\"frame_idx\": torch.tensor(idx - self.start_idx, dtype=torch.int32),\n                        \"video_idx\": torch.tensor(0")
+M("c13-get-timeout", "C13", "consumer treats a short get timeout as end of stream", PD,
+  "                frame = self.pipeline.frame_buffer.get()\n                if frame[\"image\"] is None:",
+  "                try:\n                    frame = self.pipeline.frame_buffer.get(timeout=0.0004)\n                except Exception:\n                    done = True\n                    break\n                if frame[\"image\"] is None:")
